@@ -151,6 +151,8 @@ def _enclosing_fn(node: ast.AST) -> Optional[ast.AST]:
 
 
 def run(repo: Repo, rep: Report, tier: str) -> None:
+    from sa.report import guarded as _guarded
+
     live = repo.import_closure(["generator.client_generator"])
     rts = runtime_files(repo)
     rep.count("runtime_files", [f"{m}/{f}" for m, f, _, _ in rts])
@@ -453,19 +455,19 @@ def run(repo: Repo, rep: Report, tier: str) -> None:
                     rep.violation("R12.5", sub, f"{mn}|template-import|{modtxt.replace(HOLE, '{}')}", f"template {why}", loc)
     rep.count("R12.5:template_import_statements", n_tmpl)
     rep.require(n_tmpl >= 30, f"R12.5: only {n_tmpl} template-embedded import statements found (floor 30)")
-    rule_postprocess_skips_runtime_copies(repo, rep, "R12.6")
+    _guarded(rep, rule_postprocess_skips_runtime_copies, repo, rep, "R12.6")
     # R12.7: imports of the core are rendered against core_package_name for the package itself and for its sub-modules   [= R1.11]
     from rules.c01 import rule_completion_spares_core
 
-    rule_completion_spares_core(repo, rep, "R12.7")
+    _guarded(rep, rule_completion_spares_core, repo, rep, "R12.7")
     # R12.8: the in-place rewriting tools never get a directory (a directory target reformats the runtime copies below it)     [= R10.7]
     from rules.c10 import rule_postprocess_targets_are_files
 
-    rule_postprocess_targets_are_files(repo, rep, "R12.8")
+    _guarded(rep, rule_postprocess_targets_are_files, repo, rep, "R12.8")
     # R12.9: a non-force run that succeeds has compared the runtime copies too (no generated file is left out of the comparison)  [= R9.4]
     from rules.c09 import rule_show_diffs_compares_all
 
-    rule_show_diffs_compares_all(repo, rep, "R12.9")
+    _guarded(rep, rule_show_diffs_compares_all, repo, rep, "R12.9")
 
 
 def _inside_stmt(node: ast.AST, anc: ast.AST) -> bool:
